@@ -402,6 +402,15 @@ def ks_traj(case):
         return md.Trajectory(xyz.astype(np.float32), t.topology)
     t, _, _ = make_traj(case["sys_seed"], case["n_frames"], case["sigma"], "none", case["frame_seed"],
                         **{k: case[k] for k in ("n_chains", "min_len", "max_len", "ss") if k in case})
+    if case.get("delete_seed") is not None:
+        # remove one backbone atom (N, CA, C or O) from one or two protein residues
+        rng = np.random.RandomState(case["delete_seed"])
+        prot = [r for r in t.topology.residues if r.name in H.PROTEIN_NAMES]
+        drop = set()
+        for r in [prot[i] for i in rng.choice(len(prot), size=min(len(prot), int(rng.randint(1, 3))), replace=False)]:
+            nm = str(rng.choice(["N", "CA", "C", "O", "C", "O"]))
+            drop.update(a.index for a in r.atoms if a.name == nm)
+        t = t.atom_slice([i for i in range(t.n_atoms) if i not in drop])
     return t
 
 
@@ -425,7 +434,11 @@ def ks_eval(case):
     out = {}
 
     def report(clause, wc, what, obs, exp):
-        out.setdefault((clause, wc), (clause, wc, what, obs, exp))
+        # a read before the start of the coordinate array (frame 0) returns arbitrary memory: such a witness may not replay;
+        # in later frames the same read lands in the previous frame and is deterministic -> preferred witness
+        det = not ("out-of-bounds" in wc and f == 0)
+        if (clause, wc) not in out or (det and not out[(clause, wc)][5]):
+            out[(clause, wc)] = (clause, wc, what, obs, exp, det)
 
     for f in range(x.shape[0]):
         m = got[f]
@@ -452,7 +465,7 @@ def ks_eval(case):
                 elif any(res[k][nm] is None for k in (a, d) for nm in ("N", "CA", "C", "O")):
                     wc = "kabsch_sander:extra:incomplete-residue"
                 elif d > 0 and (res[d - 1]["C"] is None or res[d - 1]["O"] is None):
-                    wc = "kabsch_sander:extra:donor-follows-residue-without-carbonyl"
+                    wc = "kabsch_sander:extra:donor-follows-residue-lacking-C-or-O(hydrogen-built-from-out-of-bounds-read)"
                 else:
                     wc = "kabsch_sander:extra:energy-or-best-two" + mf
                 report("kabsch_sander-set", wc, f"{where}: reports C=O({a}) .. H-N({d}) with E = {e:.4f}; the definition gives no such bond",
@@ -485,7 +498,8 @@ def _cases(tier, seed):
         ks.append({"sys_seed": int(seed * 100000 + 50000 + k), "n_frames": int(rng.choice([1, 2, 3, 5])),
                    "sigma": float(rng.choice([0.0, 0.005, 0.02, 0.05])), "frame_seed": int(rng.randint(1 << 30)),
                    "n_chains": int(rng.choice([1, 2, 2, 3])), "min_len": 4, "max_len": 12,
-                   "ss": str(rng.choice(["alpha", "alpha", "310", "pi", "beta", "random"]))})
+                   "ss": str(rng.choice(["alpha", "alpha", "310", "pi", "beta", "random"])),
+                   "delete_seed": int(rng.randint(1 << 30)) if k % 4 == 3 else None})
     ks.sort(key=lambda c: (c["n_frames"], c["n_chains"]))          # small witnesses first
     for pdb in ("2EQQ.pdb", "1bpi.pdb"):
         for sigma in ([0.0, 0.02] if tier == "quick" else [0.0, 0.005, 0.01, 0.02, 0.05, 0.1]):
@@ -495,9 +509,12 @@ def _cases(tier, seed):
 
 def _run(fn, cases, chk, pool, nontrivial_key):
     results = list(pool.map(fn, cases, chunksize=4)) if pool is not None else [fn(c) for c in cases]
+    # witnesses that depend on memory outside the coordinate array are reported only if no deterministic one exists
+    order = sorted(range(len(cases)), key=lambda i: any(len(x) > 5 and not x[5] for x in results[i][0]) if isinstance(results[i][0], list) else False)
+    cases, results = [cases[i] for i in order], [results[i] for i in order]
     for case, (v, stats) in zip(cases, results):
         if isinstance(v, list):
-            for clause, wc, what, obs, exp in v:
+            for clause, wc, what, obs, exp, *_ in v:
                 # ":multi-frame" marks a defect seen only in later frames; the same class already seen in a first frame is the same finding
                 if wc.endswith(":multi-frame") and f"bcc:{clause}:{wc[:-len(':multi-frame')]}" in chk._fail_keys:
                     wc = wc[:-len(":multi-frame")]
@@ -536,7 +553,7 @@ def run(tier, seed, hint):
                stands_in_for="C14 Wernet-Nilsson obligations")
     c3 = Check("kabsch-sander", "md.kabsch_sander, geometry.cpp:kabsch_sander/ks_assign_hydrogens/ks_donor_acceptor/store_energies",
                bound=f"{sum(1 for c in ks_cases if 'pdb' not in c)} generated systems (1-3 chains of 4-12 residues, alpha/3-10/pi/beta/random "
-                     f"backbones, prolines, waters/ligand interleaved as extra residues) x 1-5 frames x sigma 0-0.05 nm; 2EQQ.pdb and "
+                     f"backbones, prolines, waters/ligand as extra residues (last or between peptide chains), a backbone atom deleted in 1-2 residues of every 4th system) x 1-5 frames x sigma 0-0.05 nm; 2EQQ.pdb and "
                      f"1bpi.pdb unperturbed and perturbed (sigma up to {'0.02' if tier == 'quick' else '0.1'} nm) = {len(ks_cases)} calls",
                rule="per frame: every reported (acceptor, donor) entry must be a bond of the definition with |dE| <= 5e-3, every definite "
                     "bond must be reported; donors with a candidate within E_MARGIN=5e-3 of -0.5 / of the third best, or beyond the "
